@@ -3,6 +3,7 @@
 .type f19_0,@function
 f19_0:
   ret
+  mov wvsv2@GOTPCREL(%rip),%rax
   ret
 .section .text.f19_1,"ax",@progbits
 .globl f19_1
@@ -10,4 +11,8 @@ f19_0:
 f19_1:
   ret
   call f1_0
+  mov wvsv0@GOTPCREL(%rip),%rax
+  mov wvsv2@GOTPCREL(%rip),%rax
+  mov wvsv0(%rip),%rax
+  mov wvsv2(%rip),%rax
   ret
